@@ -465,6 +465,103 @@ static void wide_assign(const char* pn, const char* pfn, pplv::Rng& rng) {
       + std::to_string((unsigned) d) + " " + dec(to0) + " " + dec(x) + " 0 0 " + dec(to) + " " + std::to_string((unsigned) r));
 }
 
+// ---- conversions from mpz_class, mpq_class, double, float -----------------------------------------
+//   c <id> <T> <P> assignZ <dir> <to0> <v> 0 0 <stored> <result>            exact = v
+//   c <id> <T> <P> assignQ <dir> <to0> <num> <den> 0 <stored> <result>      exact = num/den (canonical)
+//   c <id> <T> <P> assignD|assignF[:nan|:pinf|:minf] <dir> <to0> <m> 0 <k> <stored> <result>   exact = m / 2^k
+static mpz_class around_limits(pplv::Rng& rng, long double lo, long double hi) {
+  mpz_class v;
+  switch (rng.below(6)) {
+  case 0: v = mpz_class(std::to_string((long long) 0)) + (int) rng.below(7) - 3; break;
+  case 1: { mpz_class h; mpz_set_d(h.get_mpz_t(), (double) hi); v = h + (int) rng.below(9) - 4; break; }
+  case 2: { mpz_class l; mpz_set_d(l.get_mpz_t(), (double) lo); v = l + (int) rng.below(9) - 4; break; }
+  case 3: { v = 1; v <<= rng.below(70); v += (int) rng.below(3) - 1; if (rng.chance(1, 2)) v = -v; break; }
+  case 4: { v = (unsigned long) rng.next(); v *= (unsigned long) rng.below(5); if (rng.chance(1, 2)) v = -v; break; }
+  default: v = (long) rng.range(-300, 300); break;
+  }
+  return v;
+}
+
+// a finite double/float as m / 2^k
+template <typename F> static void dyadic(F x, std::string& m, unsigned& k) {
+  int e; long double fr = frexpl((long double) x, &e);      // x = fr * 2^e, 0.5 <= |fr| < 1
+  // 64 bits of significand are enough for double and float
+  long double sc = ldexpl(fr, 64);
+  mpz_class mm; mpz_set_d(mm.get_mpz_t(), (double) 0);
+  // build exactly from the two 32-bit halves to avoid double rounding
+  bool neg = sc < 0; if (neg) sc = -sc;
+  unsigned long hi32 = (unsigned long) (sc / 4294967296.0L);
+  unsigned long lo32 = (unsigned long) (sc - (long double) hi32 * 4294967296.0L);
+  mm = hi32; mm <<= 32; mm += lo32; if (neg) mm = -mm;
+  long ex = (long) e - 64;                                   // x = mm * 2^ex
+  if (mm == 0) { m = "0"; k = 0; return; }
+  while (ex < 0 && mpz_even_p(mm.get_mpz_t())) { mm >>= 1; ++ex; }
+  if (ex >= 0) { mm <<= ex; k = 0; } else k = (unsigned) -ex;
+  m = mm.get_str();
+}
+
+template <typename T, typename P>
+static void conv_case(const char* pn, pplv::Rng& rng) {
+  typedef Checked_Number<T, P> N;
+  Rounding_Dir d = DIRS[rng.below(4)];
+  const long double lo = (long double) std::numeric_limits<T>::min(), hi = (long double) std::numeric_limits<T>::max();
+  T to0 = pick<T>(rng, 0);
+  N nt; nt.raw_value() = to0;
+  std::string head = std::string(" ") + TName<T>::name() + " " + pn + " ";
+  switch (rng.below(4)) {
+  case 0: {
+    mpz_class v = around_limits(rng, lo, hi);
+    Result r = assign_r(nt, v, d);
+    out("c " + std::to_string(++g_id) + head + "assignZ " + std::to_string((unsigned) d) + " " + dec(to0) + " " + v.get_str()
+        + " 0 0 " + dec(nt.raw_value()) + " " + std::to_string((unsigned) r));
+    break; }
+  case 1: {
+    mpz_class n = around_limits(rng, lo, hi);
+    mpz_class dd = 1 + (long) rng.below(rng.chance(1, 2) ? 4 : 1000);
+    if (rng.chance(1, 2)) n = n * dd + (int) rng.below(5) - 2;
+    mpq_class q(n, dd); q.canonicalize();
+    Result r = assign_r(nt, q, d);
+    out("c " + std::to_string(++g_id) + head + "assignQ " + std::to_string((unsigned) d) + " " + dec(to0) + " " + q.get_num().get_str()
+        + " " + q.get_den().get_str() + " 0 " + dec(nt.raw_value()) + " " + std::to_string((unsigned) r));
+    break; }
+  case 2: {
+    double x;
+    switch (rng.below(8)) {
+    case 0: x = (double) hi + (double) ((int) rng.below(9) - 4) * 0.5; break;
+    case 1: x = (double) lo + (double) ((int) rng.below(9) - 4) * 0.5; break;
+    case 2: x = ldexp(1.0, (int) rng.below(70)) * (rng.chance(1, 2) ? -1 : 1); break;
+    case 3: x = (double) ((long) rng.range(-1000, 1000)) / 4.0; break;
+    case 4: x = nextafter((double) hi, rng.chance(1, 2) ? 1e300 : -1e300); break;
+    case 5: x = nextafter((double) lo, rng.chance(1, 2) ? 1e300 : -1e300); break;
+    case 6: { int w = (int) rng.below(3); x = w == 0 ? std::numeric_limits<double>::quiet_NaN()
+                                            : (w == 1 ? std::numeric_limits<double>::infinity() : -std::numeric_limits<double>::infinity()); break; }
+    default: x = ldexp((double) (long) (rng.next() >> 11), (int) rng.below(40) - 60) * (rng.chance(1, 2) ? -1 : 1); break;
+    }
+    Result r = assign_r(nt, x, d);
+    std::string opn = "assignD", m = "0"; unsigned k = 0;
+    if (x != x) opn += ":nan"; else if (x == std::numeric_limits<double>::infinity()) opn += ":pinf";
+    else if (x == -std::numeric_limits<double>::infinity()) opn += ":minf"; else dyadic(x, m, k);
+    out("c " + std::to_string(++g_id) + head + opn + " " + std::to_string((unsigned) d) + " " + dec(to0) + " " + m
+        + " 0 " + std::to_string(k) + " " + dec(nt.raw_value()) + " " + std::to_string((unsigned) r));
+    break; }
+  default: {
+    float x;
+    switch (rng.below(6)) {
+    case 0: x = (float) hi; break;
+    case 1: x = (float) lo; break;
+    case 2: x = ldexpf(1.0f, (int) rng.below(70)) * (rng.chance(1, 2) ? -1 : 1); break;
+    case 3: x = (float) ((long) rng.range(-1000, 1000)) / 4.0f; break;
+    case 4: x = nextafterf((float) hi, rng.chance(1, 2) ? 1e30f : -1e30f); break;
+    default: x = ldexpf((float) (long) (rng.next() >> 40), (int) rng.below(40) - 30) * (rng.chance(1, 2) ? -1 : 1); break;
+    }
+    Result r = assign_r(nt, x, d);
+    std::string m = "0"; unsigned k = 0; dyadic(x, m, k);
+    out("c " + std::to_string(++g_id) + head + "assignF " + std::to_string((unsigned) d) + " " + dec(to0) + " " + m
+        + " 0 " + std::to_string(k) + " " + dec(nt.raw_value()) + " " + std::to_string((unsigned) r));
+    break; }
+  }
+}
+
 template <typename T, typename P>
 static void wide_cmp(const char* pn, pplv::Rng& rng) {
   T x = pick<T>(rng, 0), y = rng.chance(1, 4) ? x : pick<T>(rng, 0);
@@ -477,7 +574,22 @@ static void wide_cmp(const char* pn, pplv::Rng& rng) {
 template <typename P16, typename PU16, typename P32, typename PU32, typename P64, typename PU64, typename PA>
 static void wide_policy(const char* pn, pplv::Rng& rng, long count) {
   for (long i = 0; i < count; ++i) {
-    switch (rng.below(8)) {
+    switch (rng.below(10)) {
+    case 8:
+      switch (rng.below(8)) {
+      case 0: conv_case<int8_t, PA>(pn, rng); break;
+      case 1: conv_case<uint8_t, PA>(pn, rng); break;
+      case 2: conv_case<int16_t, P16>(pn, rng); break;
+      case 3: conv_case<uint16_t, PU16>(pn, rng); break;
+      case 4: conv_case<int32_t, P32>(pn, rng); break;
+      case 5: conv_case<uint32_t, PU32>(pn, rng); break;
+      case 6: conv_case<int64_t, P64>(pn, rng); break;
+      default: conv_case<uint64_t, PU64>(pn, rng); break;
+      }
+      break;
+    case 9:
+      if (rng.chance(1, 2)) conv_case<int64_t, P64>(pn, rng); else conv_case<uint64_t, PU64>(pn, rng);
+      break;
     case 0: wide_case<int16_t, P16>(pn, rng); break;
     case 1: wide_case<uint16_t, PU16>(pn, rng); break;
     case 2: wide_case<int32_t, P32>(pn, rng); break;
